@@ -490,6 +490,10 @@ def run(ctx: Context, rep) -> None:
     # nothing read from the dataset's files / the environment is memoised
     from sa.rules import shared as _shm
     _shm.check_no_memo(ctx, rep, "C09.memo")
+    # the merged totals count own shards plus every child (same check as
+    # C04.count)
+    from sa.rules import shared as _sh09
+    _sh09.share_rules(ctx, rep, "c04", {"C04.count": "C09.count"})
     # every writer writes where the parent will look: the root is resolved
     # at construction (same check as C20's root part)
     from sa.rules.c20 import check_root_resolved as _crr9
